@@ -10,6 +10,7 @@ import (
 	"github.com/bradenaw/juniper/xmath/xrand"
 	"github.com/bradenaw/juniper/xslices"
 
+	"verifsim/context"
 	"verifsim/sim"
 	"verifsim/time"
 )
@@ -19,7 +20,7 @@ import (
 
 func init() {
 	Register(&World{Name: "pipeline", Props: []string{"C07", "C08", "C09"}, Concurrent: true, Timed: false, MaxSteps: 60000, Run: pipelineWorld})
-	ExpectedProbes["pipeline/C07"] = []string{"depth-4", "iterator-agrees", "stream-agrees", "reducer-collect", "reducer-last", "reducer-one", "reducer-reduce", "iterator-equal", "xslices-agrees", "laziness-checked", "end-sticky-checked", "op-filter", "op-map", "op-first", "op-while", "op-compact", "op-compactfunc", "op-peek", "op-chunk", "op-chunkflat", "op-runssep", "op-runsflat", "op-flatmap", "op-join", "last-n-zero"}
+	ExpectedProbes["pipeline/C07"] = []string{"depth-4", "iterator-agrees", "stream-agrees", "reducer-collect", "reducer-last", "reducer-one", "reducer-reduce", "iterator-equal", "xslices-agrees", "laziness-checked", "end-sticky-checked", "op-filter", "op-map", "op-first", "op-while", "op-compact", "op-compactfunc", "op-peek", "op-chunk", "op-chunkflat", "op-runssep", "op-runsflat", "op-runshead", "op-flatmap", "op-join", "last-n-zero"}
 	ExpectedProbes["pipeline/C08"] = []string{"fault-src-error", "fault-cb-error", "fault-ctx-precancelled", "fault-transient", "fault-ctx-deadline-midcall", "error-with-chunk-pending", "error-inside-flatten-inner", "error-in-mapstream", "error-in-batch", "error-in-merge", "single-fault-exhaustive", "multi-fault", "reducer-error", "fault-not-reached"}
 	ExpectedProbes["pipeline/C09"] = []string{"own-abandoned-early", "own-read-to-end", "own-after-error", "own-reducer", "own-flatten-inner", "own-join-later-args", "own-merge-inputs", "own-mapstream", "own-batch", "own-samplestream"}
 }
@@ -63,7 +64,7 @@ func pipelineWorld(r *R) {
 	slack := 0
 	prog.walk(func(n *pnode) {
 		switch n.op {
-		case "while", "runssep", "runsflat", "peek", "compact", "compactfunc":
+		case "while", "runssep", "runsflat", "runshead", "peek", "compact", "compactfunc":
 			slack++
 		}
 	})
@@ -168,7 +169,17 @@ func pipelineWorld(r *R) {
 		switch s.kind {
 		case "src_error":
 			plan.srcErrAt[s.id] = s.p
-			plan.srcErr[s.id] = NewErr(fmt.Sprintf("srcE%d@%d", s.id, s.p))
+			// mostly a private error value; sometimes a well-known one that the library itself also uses
+			switch r.Choose(8, "src-err-value") {
+			case 5:
+				plan.srcErr[s.id] = context.Canceled
+			case 6:
+				plan.srcErr[s.id] = context.DeadlineExceeded
+			case 7:
+				plan.srcErr[s.id] = stream.ErrClosedPipe
+			default:
+				plan.srcErr[s.id] = NewErr(fmt.Sprintf("srcE%d@%d", s.id, s.p))
+			}
 			sc.mode = []string{"iterate", "iterate", "iterate", "collect", "reduce", "last", "one", "sample"}[r.Choose(8, "fault-consumer")]
 			sc.lastN = 2
 		case "src_transient":
@@ -236,6 +247,12 @@ func pipelineWorld(r *R) {
 			}
 			if s1.abandonAt >= 0 {
 				sc.abandonAt = s1.abandonAt
+			}
+		}
+		if r.Choose(3, "precancel-pattern") == 2 {
+			// every other Next is made with an expired context first
+			for i := 0; i < 3*nextTotal+6; i += 2 {
+				sc.preCancel[i] = true
 			}
 		}
 		r.Logf("--- multi fault: %+v script=%+v", plan, sc)
@@ -443,6 +460,10 @@ func pipelineJudge(r *R, prog *pnode, res *pResult, plan *faultPlan, sc *pScript
 		return
 	}
 	root := prog.op
+	if res.term == errRunaway {
+		r.Violate(r.Focus, "does-not-terminate/"+root, "the stream kept producing items far beyond the reference output %v and never reported the end (program %v)", X, prog)
+		return
+	}
 
 	// ---- C09: ownership --------------------------------------------------------------------
 	via := sc.mode
@@ -958,6 +979,19 @@ func pipelineIteratorChecks(r *R, prog *pnode, X []int, pulls []map[int]int, sla
 	if iterator.Equal(fresh(), iterator.Slice(pert)) {
 		r.Violate("C07", "reducer/iterator.Equal/false-positive", "Equal(prog, Slice(%v)) is true although the program yields %v", pert, X)
 		return
+	}
+	// three and four arguments, the odd one out in every position
+	for pos := 0; pos < 4; pos++ {
+		args := []iterator.Iterator[int]{fresh(), iterator.Slice(X), fresh(), iterator.Slice(X)}
+		args[pos] = iterator.Slice(pert)
+		n := 3 + r.Choose(2, "equal-arity")
+		if pos >= n {
+			continue
+		}
+		if iterator.Equal(args[:n]...) {
+			r.Violate("C07", "reducer/iterator.Equal/false-positive", "Equal of %d iterators is true although argument %d yields %v and the others %v", n, pos, pert, X)
+			return
+		}
 	}
 	if !iterator.Equal[int]() {
 		r.Violate("C07", "reducer/iterator.Equal/zero-args", "Equal() is false")
